@@ -268,6 +268,50 @@ def evalAllT : List PExpr → St → Except Err (List (Val × Ty) × St)
       | .error er => .error er
       | .ok (vs, st2) => .ok ((v, t) :: vs, st2)
 
+/-- `gen_for`, start value: `range(n)` starts at the constant 0, `range(a, b)` at `a` -/
+def forPre (st : St) (lo : Option PExpr) : Except Err (Val × St) :=
+  match lo with
+  | none =>
+    .ok (.tmp st.nvals, { (st.emit (.const st.nvals .i64 0)) with nvals := st.nvals + 1 })
+  | some e =>
+    match st.expr e with
+    | .error er => .error er
+    | .ok (v, _, s) => .ok (v, s)
+
+/-- `gen_for` from `entry_block = self.builder.block` up to the point where the body is generated:
+    four new blocks (test, body, increment, final), jump to the test block, the loop phi with its
+    entry input, the conditional jump, `enter_loop(increment_block, final_block)`, the loop variable
+    receives the counter. -/
+def forEnter (st3 : St) (iInit n2 : Val) (loopVar : Var) : St :=
+  let entryB := st3.cur
+  let (test, st4) := st3.newBlock
+  let (bodyB, st5) := st4.newBlock
+  let (inc, st6) := st5.newBlock
+  let (final, st7) := st6.newBlock
+  let st8 := (st7.emit (.jump test)).setBlock test
+  let phi := st8.nvals
+  let st9 := { (st8.emit (.phi phi .i64)) with nvals := phi + 1 }
+  let st10 := { st9 with log := st9.log ++ [Event.incoming phi entryB iInit] }
+  let st11 := st10.emit (.cjump (.tmp phi) "<" n2 bodyB final)
+  let st12 := { (st11.setBlock bodyB) with loops := (inc, final) :: st11.loops }
+  st12.emit (.store (.tmp phi) loopVar.addr)
+
+/-- `gen_for` after the body: `leave_loop`, jump to the increment block, `i + 1` feeds the phi
+    from the increment block, jump back to the test block, continue in the final block.
+    (`st3` is the state before the loop's blocks were created: test = `st3.nblocks`, …, phi = `st3.nvals`.) -/
+def forLeave (st3 st14 : St) : St :=
+  let test := st3.nblocks
+  let inc := st3.nblocks + 2
+  let final := st3.nblocks + 3
+  let phi := st3.nvals
+  let st15 := { st14 with loops := st14.loops.tail }
+  let st16 := (st15.emit (.jump inc)).setBlock inc
+  let one := st16.nvals
+  let st17 := { (st16.emit (.const one .i64 1)) with nvals := one + 1 }
+  let st18 := { (st17.emit (.binop (one + 1) .i64 "+" (.tmp phi) (.tmp one))) with nvals := one + 2 }
+  let st19 := { st18 with log := st18.log ++ [Event.incoming phi inc (.tmp (one + 1))] }
+  (st19.emit (.jump test)).setBlock final
+
 /-- `gen_statement`; `isProc` = the function has no return type -/
 def genStmt (isProc : Bool) : PStmt → St → Except Err St
   | .pass, st => .ok st
@@ -347,16 +391,7 @@ def genStmt (isProc : Bool) : PStmt → St → Except Err St
         let st8 := st7.emit (.jump test)
         .ok ({ st8 with loops := st8.loops.tail }.setBlock final)
   | .fors x lo hi body, st =>
-    -- start and end values
-    let r : Except Err (Val × St) :=
-      match lo with
-      | none =>
-        .ok (.tmp st.nvals, { (st.emit (.const st.nvals .i64 0)) with nvals := st.nvals + 1 })
-      | some e =>
-        match st.expr e with
-        | .error er => .error er
-        | .ok (v, _, s) => .ok (v, s)
-    match r with
+    match forPre st lo with
     | .error er => .error er
     | .ok (iInit, st1) =>
       match st1.expr hi with
@@ -365,28 +400,9 @@ def genStmt (isProc : Bool) : PStmt → St → Except Err St
         match getVariable st2 x (some .i64) with
         | .error er => .error er
         | .ok (loopVar, st3) =>
-          let entryB := st3.cur
-          let (test, st4) := st3.newBlock
-          let (bodyB, st5) := st4.newBlock
-          let (inc, st6) := st5.newBlock
-          let (final, st7) := st6.newBlock
-          let st8 := (st7.emit (.jump test)).setBlock test
-          let phi := st8.nvals
-          let st9 := { (st8.emit (.phi phi .i64)) with nvals := phi + 1 }
-          let st10 := { st9 with log := st9.log ++ [Event.incoming phi entryB iInit] }
-          let st11 := st10.emit (.cjump (.tmp phi) "<" n2 bodyB final)
-          let st12 := { (st11.setBlock bodyB) with loops := (inc, final) :: st11.loops }
-          let st13 := st12.emit (.store (.tmp phi) loopVar.addr)
-          match genStmt isProc body st13 with
+          match genStmt isProc body (forEnter st3 iInit n2 loopVar) with
           | .error er => .error er
-          | .ok st14 =>
-            let st15 := { st14 with loops := st14.loops.tail }
-            let st16 := (st15.emit (.jump inc)).setBlock inc
-            let one := st16.nvals
-            let st17 := { (st16.emit (.const one .i64 1)) with nvals := one + 1 }
-            let st18 := { (st17.emit (.binop (one + 1) .i64 "+" (.tmp phi) (.tmp one))) with nvals := one + 2 }
-            let st19 := { st18 with log := st18.log ++ [Event.incoming phi inc (.tmp (one + 1))] }
-            .ok ((st19.emit (.jump test)).setBlock final)
+          | .ok st14 => .ok (forLeave st3 st14)
   | .brk, st =>
     match st.loops with
     | [] => .error .indexError
